@@ -21,6 +21,7 @@ RULE = ("(a) NetSpecs with every built-in distribution kind plus custom time- an
         "run must have raised.  Non-trivial: (a) >= 2 streams, >= 10 arrival events, >= 10 completed services; (b) bad draw reached.")
 ASSUMPTIONS = ["float equality is legitimate: oracle and code perform the same additions on the same operands",
                "pre-emptive restarts are audited by C11/C12, not here"]
+TECHNIQUE = 'property-based testing with logging pass-through distributions (audit of arrival dates, batch sizes, service durations against logged samples) and fault injection of invalid samples'
 WALL = {"quick": 150, "thorough": 540}
 
 ALLOWED = [f for f in common.FULL if f not in ("prio_preempt", "prio_reroute", "sched_preempt", "sched_reroute", "slot_preempt")]
